@@ -23,6 +23,11 @@ fn main() {
     if args.is_empty() {
         usage();
     }
+    if args[0] == "--race-body" {
+        let n = |i: usize, d: usize| args.get(i).and_then(|s| s.parse().ok()).unwrap_or(d);
+        props::c20::race_body(n(1, 0), n(2, 1));
+        return;
+    }
     let mut worker = false;
     let mut id: Option<String> = None;
     let mut tier = match std::env::var("VERIF_TIER").as_deref() {
